@@ -93,6 +93,8 @@ def rule_start_value(ctx, facts, prefix="C01-R3"):
                 from_lock = True
             elif o[0] == "const" and dict(o[1]).get("unit"):
                 continue   # a unit variant such as `None` carries no number
+            elif o[0] == "const" and dict(o[1]).get("int") is None and not re.match(r"^(u|i)(8|16|32|64|128|size)$", str(dict(o[1]).get("ty", ""))):
+                continue   # a constant of another type (the `&str` of an `Err(..)` that shares the Result) cannot be the number
             else:
                 bad.append(o[0] if o[0] != "const" else "const %s" % dict(o[1]).get("int"))
         ctx.check(not bad, prefix, "start-foreign", "the counter's start value comes only from the lock value or the scanning pass (foreign sources: %s)" % (bad or "none"), c.where())
@@ -498,6 +500,32 @@ def _base_locals(body, prov, op):
     return prov.bases(p["l"]) if p else set()
 
 
+def _returns_nonzero_test(cb):
+    """the closure's value is `x != 0` / `x > 0` / `x >= 1` (or the mirrored forms) of something derived from its argument"""
+    rvs = return_values(cb)
+    if not rvs:
+        return False
+    for (_bb, st) in rvs:
+        rv = st["rv"]
+        if rv["k"] == "use":
+            k, pl, neg = trace_bool(cb, rv["op"])
+            if k != "bin" or neg:
+                return False
+            rv = pl["rv"]
+        if rv["k"] != "bin":
+            return False
+        ka, kb = op_const(rv["a"]), op_const(rv["b"])
+        if kb is not None and ka is None:
+            form = (rv["op"], kb.get("int"))
+        elif ka is not None and kb is None:
+            form = ({"Gt": "Lt", "Lt": "Gt", "Ge": "Le", "Le": "Ge"}.get(rv["op"], rv["op"]), ka.get("int"))
+        else:
+            return False
+        if form not in (("Gt", 0), ("Ne", 0), ("Ge", 1)):
+            return False
+    return True
+
+
 def rule_lock_value_in_range(ctx, facts, prefix="C01-R8"):
     """The scan result is max+1 by a checked add, so it is >= 1; the other start value, the number held in the
     lock, is whatever the file says. It must be tested for 0 before it can become the counter's start: in the
@@ -521,6 +549,12 @@ def rule_lock_value_in_range(ctx, facts, prefix="C01-R8"):
                 guarded = False
         if guarded:
             ways.append("the lock reader returns `Some` only on the non-zero side of `%s` (%s)" % (zts[0][3], r.where(zts[0][0])))
+    # `NonZeroU32::new(v)`: `Some` only for v != 0; the reader's `Some(..)` must come out of it
+    from .c02 import _strip_nonzero
+    for (bb, st) in somes:
+        inner = _strip_nonzero(r, st["rv"]["ops"][0])
+        if inner is not st["rv"]["ops"][0] and any(o[0] == "call" and o[1].matches(r"^serde_yaml::from_str$") for o in prov.origins_op(inner)):
+            ways.append("the lock reader passes the parsed value through `NonZero::new` (%s)" % r.where(bb))
     gp = Prov(g)
     for c in g.calls_to(r"atomic::Atomic::<u32>::new$"):
         for z in zero_tests(g, gp, lambda o: o == ("param", 1)):
@@ -531,6 +565,22 @@ def rule_lock_value_in_range(ctx, facts, prefix="C01-R8"):
                 ks = [op_const(a) for a in o[1].args]
                 if any(k is not None and (k.get("int") or 0) >= 1 for k in ks):
                     ways.append("the driver raises the start value to a constant >= 1 with `max` (%s)" % o[1].where())
+    # ... or where the reader's result is stored into the context (`Context::new`): a test of the value there, or
+    # `.filter(|v| *v != 0)` on the Option
+    for cn in facts.find(r"config::context::Context::new$"):
+        cp = Prov(cn)
+        from_reader = lambda o: o[0] == "call" and o[1].matches(r"Context::read_cached_next_reference_id$")
+        for z in zero_tests(cn, cp, from_reader):
+            if z[1] is not None:
+                ways.append("Context::new tests the value read from the lock with `%s` (%s)" % (z[3], cn.where(z[0])))
+        for c in cn.calls_to(r"Option::<u32>::filter$|Option::<.*>::filter$"):
+            if not any(from_reader(o) for o in cp.origins_op(c.args[0])):
+                continue
+            p_ = op_place(c.args[1]) if len(c.args) > 1 else None
+            d_ = single_def(cn, p_["l"]) if p_ else None
+            cb = facts.body(d_[2]["rv"].get("def")) if d_ and d_[1] == "assign" and d_[2]["rv"]["k"] == "agg" else None
+            if cb is not None and (any(z[1] is not None for z in zero_tests(cb, Prov(cb), lambda o: o[0] in ("param", "upvar"))) or _returns_nonzero_test(cb)):
+                ways.append("Context::new keeps the lock value only if it is non-zero (`.filter(..)`, %s)" % c.where())
     ctx.check(bool(ways), prefix, "lock-value-zero", "a lock holding `next_reference_id: 0` cannot make the run insert ID 0: %s" %
               ("; ".join(ways) if ways else "found no test of the parsed value against 0 in the lock reader or the driver, and its type admits 0"),
               r.where())
